@@ -37,7 +37,8 @@ def insert_zero(ast, rng):
         used.add("%s%d" % (base, k))
         return "%s%d" % (base, k)
     inserted = []
-    place = rng.choice(["item-first", "item-last", "item-middle", "starred", "quoted", "zero-super", "only-member", "in-domains-target", "last-definition"])
+    place = rng.choice(["item-first", "item-last", "item-middle", "starred", "quoted", "zero-super", "only-member", "in-domains-target", "last-definition",
+                        "beside-wildcard", "beside-wildcard"])
     z = fresh("zz")
     zdef = {"k": "seq", "name": z, "items": [{"t": "nuc", "text": rng.choice(["0N", "0N 0S", "?N"])}], "len": None}
     if "?" in zdef["items"][0]["text"]:
@@ -48,6 +49,21 @@ def insert_zero(ast, rng):
         return a, inserted, place
     stmts.insert(0, zdef)
     targets = [s for s in stmts[1:] if s["k"] in ("seq", "strand") and not (s["k"] == "seq" and len(s["items"]) == 1 and s["items"][0]["t"] == "nuc")]
+    if place == "beside-wildcard":
+        # `sequence x = "?N" : L` -> `sequence x = zz "?N" zz* : L`: the only explicit members are zero-length
+        wilds = [s_ for s_ in stmts[1:] if s_["k"] in ("seq", "strand") and s_["len"] and
+                 any(it["t"] == "nuc" and "?" in it["text"] for it in s_["items"]) and
+                 all(it["t"] == "nuc" and "?" in it["text"] for it in s_["items"])]
+        if not wilds:
+            return None
+        t = rng.choice(wilds)
+        zi = lambda: {"t": "ref", "name": z, "star": rng.random() < 0.3}
+        side = rng.choice(["first", "last", "both"])
+        if side in ("first", "both"):
+            t["items"].insert(0, zi())
+        if side in ("last", "both"):
+            t["items"].append(zi())
+        return a, inserted, place
     if place == "only-member":
         e = fresh("zonly")
         idx = rng.randint(1, len(stmts))
@@ -78,6 +94,20 @@ def insert_zero(ast, rng):
     pos = {"item-first": 0, "item-last": len(t["items"])}.get(place, rng.randint(0, len(t["items"])))
     t["items"].insert(pos, item)
     return a, inserted, place
+
+
+def canon_by_strands(d):
+    from semantics import parse_nuc
+    ren = {}
+    tmpl = dict((n, t) for n, t in d["domains"])
+    def rn(x):
+        (dom, idx), comp = parse_nuc(x)
+        if dom not in ren:
+            ren[dom] = "D%d" % len(ren)
+        return "%s:%d%s" % (ren[dom], idx, "*" if comp else "")
+    strands = [[n, dm, [rn(x) for x in l]] for n, dm, l in d["strands"]]
+    return {"domains": sorted([ren[n], t] for n, t in tmpl.items() if n in ren), "seqs": [], "strands": strands,
+            "structs": d["structs"], "kinetics": [], "equals": [[[rn(x) for x in reg] for reg in e] for e in d["equals"]]}
 
 
 def strip_inserted(design, names):
@@ -138,14 +168,19 @@ def run(st, tier, seed):
                 res.violations.append({"what": "zero-length insertion (%s) produces a PIL the designer front-end cannot load" % place, "input": inp,
                                        "observed": r2["text"], "sig": "C14:unloadable", "cmd": cmd})
                 continue
-            c1 = pilio.canon_design(d1["ok"]); c2 = pilio.canon_design(strip_inserted(d2["ok"], inserted))
+            if place == "beside-wildcard":
+                # an atomic sequence became a super-sequence over an anonymous region: names of domains legitimately change;
+                # compare strands, structures and templates up to a renaming of ALL domains by first occurrence in the strands
+                c1, c2 = canon_by_strands(d1["ok"]), canon_by_strands(d2["ok"])
+            else:
+                c1 = pilio.canon_design(d1["ok"]); c2 = pilio.canon_design(strip_inserted(d2["ok"], inserted))
             diff = pilio.design_diff(c1, c2)
             if diff is not None:
                 res.violations.append({"what": "zero-length insertion (%s) changes what the PIL denotes for other objects (%s #%d)" % (place, diff["field"], diff["index"]),
                                        "input": inp, "expected": diff["source_denotes"], "observed": diff["output_denotes"], "sig": "C14:changed:" + diff["field"], "cmd": cmd})
         # .des back-end
         q1, q2 = impl.compile_bundle(b, "des"), impl.compile_bundle(b2, "des")
-        if q1["ok"] and q2["ok"] and canon_text(q1["text"]) != canon_text(q2["text"]):
+        if place != "beside-wildcard" and q1["ok"] and q2["ok"] and canon_text(q1["text"]) != canon_text(q2["text"]):
             res.violations.append({"what": "zero-length insertion (%s) changes the .des output" % place, "input": inp, "sig": "C14:des-changed", "cmd": "pepper-compiler --des"})
         # the rest of the tool chain on prog'
         if i % (2 if tier == "quick" else 1) == 0:
